@@ -809,7 +809,16 @@ pub fn negation_layers(tier: Tier) -> Vec<Layer> {
         out.push(Layer::Not(p.clone(), NotForm::Owned));
     }
     // combinators: pairs over an interesting subset (exhaustive x nonexhaustive x empty)
-    let picks = ["", "a", "*", "a/**", "**/a", "**", "{a/**,b}", "a/*", "**/{a}", "<a/>*", "?/**", "[!a]*"];
+    // patterns that are exhaustive only for some branches, nested so that they are not split
+    // into top-level alternatives
+    for p in ["a/{b/**,a}", "a/{a,b/**}", "?/{a/**,b}", "*/{a,b/**}", "<a/:1,2>{b/**,a}", "{a,b}/{a/**,b}", "a/<b/**:0,1>", "a/<a/:0,1>b", "**/a/{b,a/**}"] {
+        if Glob::new(p).is_ok() {
+            out.push(Layer::Not(p.to_string(), NotForm::Text));
+            out.push(Layer::Not(p.to_string(), NotForm::Compiled));
+            out.push(Layer::Not(p.to_string(), NotForm::AnyText("b".to_string())));
+        }
+    }
+    let picks = ["", "a", "*", "a/**", "**/a", "**", "{a/**,b}", "a/*", "**/{a}", "<a/>*", "?/**", "[!a]*", "a/{b/**,a}"];
     for p in picks {
         for q in picks {
             if Glob::new(p).is_ok() && Glob::new(q).is_ok() {
